@@ -329,7 +329,7 @@ pub fn exec(plan: &Plan) -> Outcome {
         };
         evals += 1;
         stats.bump("op-typed");
-        let rejected = block.messages.iter().any(|m| m.starts_with("invalid input") || m.starts_with("error:"));
+        let complained = block.messages.iter().any(|m| m.starts_with("invalid input") || m.starts_with("error:"));
         let board = match block.board {
             Some(b) => b,
             None => {
@@ -349,6 +349,17 @@ pub fn exec(plan: &Plan) -> Outcome {
                 "standard"
             }
         };
+        // acceptance is read off the printed position (robust against reworded messages): a move was
+        // played iff the board changed
+        let rejected = board == pos.sq;
+        if !rejected && complained {
+            out.violation = Some(Violation {
+                class: "C14/cli/rejected-input-changed-the-game".into(),
+                detail: format!("chess pvp answered {:?} to '{}' in {} and yet the printed board changed", block.messages, trimmed, pos.to_fen()),
+                at_op: i,
+            });
+            break;
+        }
         if rejected {
             stats.bump("typed-rejected");
             if must_reject {
